@@ -65,6 +65,47 @@ func u16LineLens(s string) []string {
 	return out
 }
 
+// c17Covers lists, for every token of a full answer, its type, the bytes of the line it covers and the
+// bytes of the line behind it (UTF-16 slicing done here; the lexeme rules are judged in Coq).
+func c17Covers(text string, data []uint32) string {
+	lines := strings.Split(text, "\n")
+	var out []string
+	line, col := uint32(0), uint32(0)
+	for i := 0; i+4 < len(data); i += 5 {
+		if data[i] != 0 {
+			line += data[i]
+			col = data[i+1]
+		} else {
+			col += data[i+1]
+		}
+		cover, after := "", ""
+		if int(line) < len(lines) {
+			ln := lines[line]
+			b0 := utf16ToByte(ln, int(col))
+			b1 := utf16ToByte(ln, int(col+data[i+2]))
+			cover, after = ln[b0:b1], ln[b1:]
+		}
+		out = append(out, fmt.Sprintf("(%d, %s, %s)", data[i+3], gBytes(cover), gBytes(after)))
+	}
+	return gList(out)
+}
+
+// utf16ToByte converts a UTF-16 offset inside a line to a byte offset (clamped to the line).
+func utf16ToByte(s string, u int) int {
+	n := 0
+	for i, r := range s {
+		if n >= u {
+			return i
+		}
+		if r >= 0x10000 {
+			n += 2
+		} else {
+			n++
+		}
+	}
+	return len(s)
+}
+
 func gData(d []uint32) string {
 	items := make([]string, len(d))
 	for i, v := range d {
@@ -92,7 +133,7 @@ func c17Run(c c17Case) (string, error) {
 				flags |= 1
 			}
 		}
-		table = append(table, fmt.Sprintf("(mkInfo %s %s %s %d)", gData(res.Data), gList(u16LineLens(text)), gBool(text == ""), flags))
+		table = append(table, fmt.Sprintf("(mkInfo %s %s %s %d %s)", gData(res.Data), gList(u16LineLens(text)), gBool(text == ""), flags, c17Covers(text, res.Data)))
 	}
 	// id base: one more full on the scratch uri with a non-empty text
 	_ = srv.DidOpen(ctx, &protocol.DidOpenTextDocumentParams{TextDocument: protocol.TextDocumentItem{URI: scratch, Text: "x\n"}})
